@@ -278,10 +278,10 @@ func DecodeComparableVarint(b []byte) ([]byte, int64, error) {
 		return nil, 0, errors.WithStack(errDecodeInsufficient)
 	}
 	first := b[0]
+	b = b[1:]
 	if first >= negativeTagEnd && first <= positiveTagStart {
 		return b, int64(first) - negativeTagEnd, nil
 	}
-	b = b[1:]
 	var length int
 	var v uint64
 	if first < negativeTagEnd {
